@@ -5,9 +5,11 @@ A case is one of
                     tornado IOLoop (AsyncIOLoop) over the virtual-clock asyncio loop of
                     harness/vclock.py until the loop is idle;
   * kind "sync":    IOLoop.run_sync(func, timeout) where func is such a body;
-  * kind "threads": several OS threads calling IOLoop.add_callback concurrently on a
-                    running loop (harness-level stress check ONLY: real preemption is not
-                    modelled; the model evaluates one canonical interleaving).
+  * kind "threads": several OS threads calling IOLoop.add_callback concurrently on a loop that
+                    is idle in select() in its own thread; the caller threads are plain threads
+                    or are themselves running another asyncio event loop (harness-level stress
+                    check ONLY: real preemption is not modelled; the model evaluates one canonical
+                    interleaving and the call_soon / call_soon_threadsafe decision).
 
 Body  = {"l": label, "ops": [op...], "out": ["none"] | ["val"] | ["raise", e] | ["fut", f]}
 op    = ["cb", body]             io_loop.add_callback(body)
@@ -306,45 +308,78 @@ class _Run:
             asyncio.set_event_loop(None)
 
 
+THREAD_DEADLINE = 25.0     # real seconds; generous because the machine may be loaded
+
+
 def run_threads(case):
-    """harness-level stress: n threads x m add_callback calls each, on a running real-time loop"""
+    """harness-level stress: IOLoop A runs in its own thread and is IDLE in select() with no timers; n caller threads
+    make m add_callback calls each.  mode "noloop": plain threads; mode "otherloop": every caller thread is RUNNING ITS
+    OWN asyncio event loop and calls A.add_callback from inside a coroutine of that loop.  The callbacks must be
+    delivered without any further wake-up; after THREAD_DEADLINE a breaker (add_callback(stop) from this thread, which
+    has no running loop and therefore always wakes A) ends the run."""
     from tornado.ioloop import IOLoop
-    n, m = case["n"], case["m"]
-    aloop = asyncio.new_event_loop()
-    io = IOLoop(asyncio_loop=aloop, make_current=False)
-    seen = []
-    total = n * m + m
+    n, m, mode = case["n"], case["m"], case.get("mode", "noloop")
+    box, seen = {}, []
+    ready, idle, all_ran = threading.Event(), threading.Event(), threading.Event()
+    chain = mode != "otherloop"     # in "otherloop" mode NOTHING but the loop-running caller threads may touch A:
+    #                                 any call from a plain thread would wake A and deliver stranded callbacks too
+    total = n * m + (m if chain else 0)
 
     def cb(tid, k):
         seen.append((tid, k))
-        if tid == n and k + 1 < m:            # the loop thread keeps scheduling too
-            io.add_callback(cb, n, k + 1)
+        if tid == n and k + 1 < m:            # the loop thread keeps scheduling too (same loop: plain call_soon)
+            box["io"].add_callback(cb, n, k + 1)
         if len(seen) >= total:
-            io.stop()
+            all_ran.set()
 
-    def worker(tid):
+    def loop_thread():
+        io = IOLoop(asyncio_loop=asyncio.new_event_loop(), make_current=False)
+        box["io"] = io
+        ready.set()
+        io.add_callback(idle.set)
+        try:
+            io.start()
+        finally:
+            io.close()
+
+    ta = threading.Thread(target=loop_thread, daemon=True)
+    ta.start()
+    if not (ready.wait(THREAD_DEADLINE) and idle.wait(THREAD_DEADLINE)):
+        raise RuntimeError("loop thread did not start")
+    _time.sleep(0.3)                            # let A block in select()
+    io = box["io"]
+
+    def plain_worker(tid):
         for k in range(m):
             io.add_callback(cb, tid, k)
             if k % 7 == tid % 7:
                 _time.sleep(0)
-    ths = [threading.Thread(target=worker, args=(t,)) for t in range(n)]
 
-    def go():
-        for t in ths:
-            t.start()
-        io.add_callback(cb, n, 0)
-    io.add_callback(go)
-    wd = io.call_later(20, io.stop)
-    try:
-        io.start()
-        io.remove_timeout(wd)
-    finally:
-        for t in ths:
-            t.join(5)
-        io.close()
-    once = sorted(seen) == sorted((t, k) for t in range(n + 1) for k in range(m))
-    order = all([k for (t, k) in seen if t == tid] == sorted(k for (t, k) in seen if t == tid) for tid in range(n + 1))
-    return [T("threads"), once, order]
+    def loop_worker(tid):
+        async def main():
+            await asyncio.sleep(0)
+            for k in range(m):
+                io.add_callback(cb, tid, k)     # called while THIS thread's own event loop is running
+                if k % 5 == tid % 5:
+                    await asyncio.sleep(0)
+        asyncio.run(main())
+    ths = [threading.Thread(target=(loop_worker if mode == "otherloop" else plain_worker), args=(t,), daemon=True) for t in range(n)]
+    for t in ths:
+        t.start()
+    if chain:
+        starter = threading.Thread(target=lambda: io.add_callback(cb, n, 0), daemon=True)   # the loop thread's own chain
+        starter.start()
+        ths = ths + [starter]
+    for t in ths:
+        t.join(THREAD_DEADLINE)
+    delivered = all_ran.wait(THREAD_DEADLINE)
+    snapshot = list(seen)
+    io.add_callback(io.stop)                    # breaker / normal shutdown
+    ta.join(THREAD_DEADLINE)
+    tids = range(n + 1) if chain else range(n)
+    once = sorted(snapshot) == sorted((t, k) for t in tids for k in range(m))
+    order = all([k for (t, k) in snapshot if t == tid] == sorted(k for (t, k) in snapshot if t == tid) for tid in tids)
+    return [T("threads"), once, order, bool(delivered)]
 
 
 def run_impl(case):
@@ -399,7 +434,7 @@ def coq_input(case):
         return "(IProg %s)" % g_body(case["body"])
     if case["kind"] == "sync":
         return "(ISync %s %s)" % (g_body(case["body"]), G.goption(case["timeout"], G.gz, "Z"))
-    return "(IThreads %s %s)" % (G.gnat(case["n"]), G.gnat(case["m"]))
+    return "(IThreads %s %s %s)" % (G.gnat(case["n"]), G.gnat(case["m"]), "COtherLoop" if case.get("mode") == "otherloop" else "CNoLoop")
 
 
 # ---------------------------------------------------------------- program construction
@@ -528,7 +563,10 @@ def corpus_cases():
             cs.append(sync(B([], out), tmo))
         cs.append(sync(B([["sr", 0, 1], ["sr", 0, 2]], ("none",)), tmo))
         cs.append(sync(B([["cb", B([["cf", 0]])]], ("fut", 0)), tmo))
-    cs.append({"kind": "threads", "n": 3, "m": 40})
+    cs.append({"kind": "threads", "n": 3, "m": 40, "mode": "noloop"})
+    # the caller threads run their own event loops (seeded change C38_3: plain call_soon whenever ANY loop is running)
+    cs.append({"kind": "threads", "n": 2, "m": 5, "mode": "otherloop"})
+    cs.append({"kind": "threads", "n": 1, "m": 1, "mode": "otherloop"})
     return cs
 
 
@@ -583,15 +621,15 @@ def gen_cases(rng, tier):
         out.append(prog(B(ops)))
         ops2 = [["to", 0, rng.choice([3, 3, 4]), B([["rm", rng.randrange(n)]])] for _ in range(n)]
         out.append(prog(B(ops2 + [["rm", rng.randrange(n)]])))
-    for k in range(2 if tier == "quick" else 8):
-        out.append({"kind": "threads", "n": rng.randrange(2, 6), "m": rng.choice([10, 50, 120])})
+    for k in range(4 if tier == "quick" else 12):
+        out.append({"kind": "threads", "n": rng.randrange(1, 6), "m": rng.choice([1, 10, 50, 120]), "mode": ("otherloop", "noloop")[k % 2]})
     return out
 
 
 # ---------------------------------------------------------------- evidence helpers
 def nontrivial(case, o):
     if case["kind"] == "threads":
-        return ("threads", case["n"], case["m"])
+        return ("threads", case["n"], case["m"], case.get("mode"))
     if size(case["body"]) < 2:
         return None
     return G.jsonable([case, o])
@@ -600,6 +638,7 @@ def nontrivial(case, o):
 def classify(case, o):
     yield "kind=" + case["kind"]
     if case["kind"] == "threads":
+        yield "threads=" + case.get("mode", "noloop")
         return
     n = size(case["body"])
     yield "size=" + ("1" if n == 1 else "2-4" if n < 5 else "5-10" if n < 11 else "11-20" if n < 21 else "21+")
@@ -857,7 +896,7 @@ def _sync_ok(timeout, tr, r, fs):
 
 def py_check(case, o):
     if case["kind"] == "threads":
-        return o == [T("threads"), True, True] and all(isinstance(x, bool) for x in o[1:])
+        return o == [T("threads"), True, True, True] and all(isinstance(x, bool) for x in o[1:])
     if not (isinstance(o, list) and len(o) == 2 and isinstance(o[1], list)):
         return False
     tr = o[1]
@@ -880,8 +919,9 @@ TRUSTED_BASE = [
     "callbacks take virtual time only through the explicit 'adv' op",
     "the harness's trace recorder (wrappers around the scheduled functions, a logging handler on tornado.application/tornado.general/asyncio, the loop exception handler, "
     "iteration marks in the selector, a Future subclass recording successful cancel())",
-    "threads: the multi-thread add_callback clause is a harness-level stress check ONLY; the Coq theorem covers every interleaving of ATOMIC appends to the ready deque "
-    "(call_soon_threadsafe's deque.append under the GIL); real preemption is not exhibited",
+    "threads: the multi-thread add_callback clause is a harness-level stress check ONLY (loop A idle in select() in its own thread, no timers; caller threads plain or running "
+    "their own asyncio loop; 25 s real-time deadline, then a breaker); the Coq theorems cover every interleaving of ATOMIC appends to the ready deque and the "
+    "call_soon / call_soon_threadsafe decision with an abstract 'woken' flag for the self-pipe; real preemption is not exhibited",
 ]
 ASSUMPTIONS = [
     "times are multiples of 0.25 s around a virtual epoch, so every float operation in call_at/call_later is exact (TimerHandle._when equals the requested deadline) "
